@@ -42,7 +42,7 @@ func caseGen() *rapid.Generator[Case] {
 	key := rapid.Custom(func(t *rapid.T) gen.Item {
 		return gen.S(gen.StringOf([]string{"k", "h1", "h2", "h3", "name", "x y", "é", "\"q\""}, 1, 2).Draw(t, "key"))
 	})
-	opts := gen.ScriptOpts{Item: itemGen(), HdrItem: key, MinOps: 0, MaxOps: max, MaxCells: 3, HdrCells: [2]int{1, 5}, ForceHdr: true, MultiHdr: true, AllowMutate: true, Creators: Creators}
+	opts := gen.ScriptOpts{Item: itemGen(), HdrItem: key, MinOps: 0, MaxOps: max, MaxCells: 3, HdrCells: [2]int{1, 5}, ForceHdr: true, MultiHdr: true, AllowMutate: true, AllowCopy: true, Creators: Creators}
 	withHdr := gen.ScriptGen(opts)
 	opts.ForceHdr = false
 	anyHdr := gen.ScriptGen(opts)
